@@ -17,6 +17,8 @@
 (*   overwrite fitting MutFam overwrites the fixed MutName with an estimate              *)
 (*   stale     an inner dependence function is evaluated at the previous given           *)
 (*   vecfirst  a vectorised call uses the first element's given for every element        *)
+(*   falsy     fitting MutFam treats a parameter fixed at a zero value as not fixed       *)
+(*   wrap      fitting MutFam returns a fixed location reduced to the principal range     *)
 EXTENDS ParamRoutingOps, TLC, Json
 
 CONSTANTS Scen, NGiven, MutKind, MutFam, MutName
@@ -30,9 +32,10 @@ Fixed(n) == <<"fixed", n>>
 Est(n, r) == <<"est", n, r>>
 Mut(f, n) == MutFam = f /\ MutName = n
 
-Case(scen, f, E, m, ak, p, D, ch, sh, F, fm, d) ==
+Case(scen, f, E, m, ak, p, D, ch, sh, F, fm, d, sp, sn) ==
     [scen |-> scen, fam |-> f, E |-> E, meth |-> m, kind |-> ak, pass |-> p,
-     D |-> D, chain |-> ch, shape |-> sh, F |-> F, fitm |-> fm, data |-> d]
+     D |-> D, chain |-> ch, shape |-> sh, F |-> F, fitm |-> fm, data |-> d,
+     special |-> sp, sname |-> sn]
 
 Init ==
     /\ pc = "new" /\ used = <<>> /\ outcome = "none" /\ round = 0 /\ k = 1
@@ -40,13 +43,17 @@ Init ==
          /\ par = [n \in Names(f) |-> <<"none", n>>]
          /\ \/ /\ Scen = "override"
                /\ \E E \in SUBSET Names(f), m \in Methods, ak \in ArgKinds, p \in PassKinds :
-                    c = Case("override", f, E, m, ak, p, {}, "plain", "ss", {}, "mle", "own")
+                    c = Case("override", f, E, m, ak, p, {}, "plain", "ss", {}, "mle", "own", "regular", "none")
             \/ /\ Scen = "cond"
                /\ \E D \in Partitions(f), ch \in Chains, sh \in Shapes, m \in Methods :
-                    c = Case("cond", f, {}, m, "ndarray", "kw", D, ch, sh, Names(f) \ D, "mle", "own")
+                    c = Case("cond", f, {}, m, "ndarray", "kw", D, ch, sh, Names(f) \ D, "mle", "own", "regular", "none")
             \/ /\ Scen = "fit"
-               /\ \E F \in FixSets(f), fm \in FitMethods, d \in DataKinds :
-                    c = Case("fit", f, {}, "cdf", "ndarray", "kw", {}, "plain", "ss", F, fm, d)
+               /\ \/ \E F \in FixSets(f), fm \in FitMethods, d \in DataKinds :
+                       c = Case("fit", f, {}, "cdf", "ndarray", "kw", {}, "plain", "ss", F, fm, d,
+                                "regular", "none")
+                  \/ \E sc \in SpecialFitCasesOf(f) :
+                       c = Case("fit", f, {}, "cdf", "ndarray", "kw", {}, "plain", "ss", {sc[2]}, "mle",
+                                "own", sc[3], sc[2])
 
 (* constructor: value = f_value if given *)
 NewDist ==
@@ -107,8 +114,12 @@ FitDist ==
             THEN outcome' = "TypeError" /\ par' = par
             ELSE /\ outcome' = "ok"
                  /\ par' = [n \in Names(c.fam) |->
-                              IF n \in c.F /\ ~(MutKind = "overwrite" /\ Mut(c.fam, n))
-                              THEN par[n] ELSE Est(n, round + 1)]
+                              IF n \in c.F /\ MutKind = "wrap" /\ MutFam = c.fam /\ c.special = "wrap"
+                              THEN <<"wrapped", n>>
+                              ELSE IF /\ n \in c.F
+                                      /\ ~(MutKind = "overwrite" /\ Mut(c.fam, n))
+                                      /\ ~(MutKind = "falsy" /\ MutFam = c.fam /\ c.special \in ZeroKinds)
+                                   THEN par[n] ELSE Est(n, round + 1)]
     /\ round' = round + 1
     /\ pc' = IF pc = "evald" THEN "fitted" ELSE "done"
     /\ UNCHANGED <<c, used, k>>
@@ -160,7 +171,7 @@ CaseJson ==
     [scen |-> c.scen, fam |-> c.fam, E |-> AsSeq(c.fam, c.E), method |-> c.meth,
      argkind |-> c.kind, pass |-> c.pass, D |-> AsSeq(c.fam, c.D), chain |-> c.chain,
      shape |-> c.shape, F |-> AsSeq(c.fam, c.F), fitm |-> c.fitm, data |-> c.data,
-     names |-> NamesSeq(c.fam)]
+     special |-> c.special, sname |-> c.sname, names |-> NamesSeq(c.fam)]
 Emit == pc = "new" => PrintT(<<"BEH", ToJson(CaseJson)>>)
 
 =============================================================================
